@@ -1,5 +1,5 @@
 CONSTANTS Kinds = {"jobs", "cron"} Fields = {"f1"} Vals = {"u", "z", "a", "x"} MaxUpdates = 3 MaxReads = 3
 SPECIFICATION Spec
 INVARIANTS C19_NoPartial C19_NeverBad
-PROPERTIES C19_Layering C19_LKG
+PROPERTIES C19_Layering C19_LKG C19_AllOrNothing
 CHECK_DEADLOCK FALSE
